@@ -3,9 +3,10 @@ from __future__ import annotations
 
 from typing import Any, Dict, List, Tuple
 
+from harness import gen_trees
 from props import common, detfam, families, sdriver
-from props.common import Ctx, Outcome
-from vlib import scheck
+from props.common import Ctx, Outcome, VERIF
+from vlib import chrunner, scheck
 
 
 def check(src: str, spec: Dict[str, Any]) -> Tuple[List[Any], Any]:
@@ -17,12 +18,16 @@ sdriver.CHECKS["c03"] = check
 
 def run(ctx: Ctx) -> int:
     outcome = Outcome()
+    # K: the &&, ||, ! combinators of `_get_asserted` return exactly the semantic true/false sets (one symbolic constant,
+    # the other from the alphabet, optional unknown leaf)
+    kres = chrunner.run_module(gen_trees.generate(VERIF, ctx.tier), f"k_c03_{ctx.tier}", timeout=400 if ctx.quick else 900)
+    kcounts = common.k_results_to_outcome(ctx, kres, outcome, "k_c03")
     cov = sdriver.run_family(ctx, "c03", detfam.family(ctx, quick_cap=800), outcome)
     from tealer.detectors import utils as du
     from tealer.analyses.dataflow.transaction_context.generic import DataflowTransactionContext as D
 
     ev = families.s_evidence(
-        "C03", "translation_validation", cov, {}, [],
+        "C03", "translation_validation", cov, kcounts, kres,
         "same family as C01; per program, detector and governed field one direct-check (FREE) exploration: comparisons of the field read in the same block against a "
         "same-block constant are interpreted by z3, every other condition is a fresh value; two-field detectors are projected per field and combined per block trace; "
         "if no accepting path carries the dangerous value, real run_detectors() must report nothing; non-trivial = the detector reported at least one path",
